@@ -68,3 +68,38 @@ def _decode(s: 'val', model: 'Model') -> 'obj':
 @contract('penman.codec:_encode', view='stages')
 def _encode(g: 'obj', top: 'val', model: 'Model', indent: 'val', compact: 'val') -> 'val':
     ensures(result == st_format(st_configure(g.state, top, model), indent, compact))
+
+
+# ---- triple conjunctions through the codec (C19) ---------------------------------------------------------
+
+@spec(uninterpreted=True)
+def st_format_triples(triples: 'val', indent: 'val') -> 'val':
+    """_format.format_triples"""
+
+
+@spec(uninterpreted=True)
+def st_parse_triples(s: 'val') -> 'val':
+    """_parse.parse_triples"""
+
+
+@contract('penman._format:format_triples@stages')
+def format_triples_st(triples: 'val', indent: 'val') -> 'val':
+    option(axiom=True)
+    ensures(result == st_format_triples(triples, indent))
+
+
+@contract('penman._parse:parse_triples@stages')
+def parse_triples_st(s: 'val') -> 'val':
+    option(axiom=True)
+    ensures(result == st_parse_triples(s))
+
+
+@contract('penman.codec:PENMANCodec.format_triples', view='stages')
+def codec_format_triples(self: 'Codec', triples: 'val', indent: 'val') -> 'val':
+    # the list as given (every conjunct, repeated ones included), the caller's line style
+    ensures(result == st_format_triples(triples, indent))
+
+
+@contract('penman.codec:PENMANCodec.parse_triples', view='stages')
+def codec_parse_triples(self: 'Codec', s: 'val') -> 'val':
+    ensures(result == st_parse_triples(s))
